@@ -8,6 +8,7 @@ import (
 	"fmt"
 	"io"
 	"os"
+	"runtime"
 	"runtime/debug"
 	"runtime/metrics"
 	"strconv"
@@ -15,6 +16,7 @@ import (
 	"sync/atomic"
 	"syscall"
 	"time"
+	"unsafe"
 
 	"github.com/a-h/parse"
 	"github.com/a-h/templ/parser/v2"
@@ -24,28 +26,35 @@ import (
 // Record is what the child reports per input; all verdicts are drawn from
 // records by the parent.
 type Record struct {
-	I      int    `json:"i"`
-	Stage  string `json:"stage,omitempty"`  // parse-error | generate | gofmt | ok | panic:generate | panic:gofmt
-	Err    string `json:"err,omitempty"`    // error text (clipped)
-	PE     bool   `json:"pe,omitempty"`     // the error is (or wraps) a parse.ParseError
-	PosIdx int    `json:"posidx,omitempty"` // its position index
-	Panic  string `json:"panic,omitempty"`  // recovered panic in ParseString: value + stack
-	CPUus  int64  `json:"cpu_us"`
-	NExpr  int    `json:"nexpr,omitempty"` // non-blank expressions in the tree (parse ok)
-	Alarms []ptree.Alarm `json:"alarms,omitempty"`
-	NNamed, NRange int `json:",omitempty"`
-	Soft   bool   `json:"soft,omitempty"` // CPU budget exceeded while on this input; child exits 3
-	Mem    bool   `json:"mem,omitempty"`  // memory guard tripped on this input; child exits 4
-	Done   bool   `json:"done,omitempty"` // last line of a completed batch
+	I              int           `json:"i"`
+	Stage          string        `json:"stage,omitempty"`  // parse-error | generate | gofmt | ok | panic:generate | panic:gofmt
+	Err            string        `json:"err,omitempty"`    // error text (clipped)
+	PE             bool          `json:"pe,omitempty"`     // the error is (or wraps) a parse.ParseError
+	PosIdx         int           `json:"posidx,omitempty"` // its position index
+	Panic          string        `json:"panic,omitempty"`  // recovered panic in ParseString: value + stack
+	CPUus          int64         `json:"cpu_us"`
+	NExpr          int           `json:"nexpr,omitempty"` // non-blank expressions in the tree (parse ok)
+	Alarms         []ptree.Alarm `json:"alarms,omitempty"`
+	NNamed, NRange int           `json:",omitempty"`
+	Soft           bool          `json:"soft,omitempty"` // CPU budget exceeded while on this input; child exits 3
+	Mem            bool          `json:"mem,omitempty"`  // memory guard tripped on this input; child exits 4
+	Done           bool          `json:"done,omitempty"` // last line of a completed batch
 }
 
 // Children is the child-process table for core.Main.
 var Children = map[string]func([]string) int{"parse": childParse}
 
-func cpuNow() time.Duration {
-	var ru syscall.Rusage
-	_ = syscall.Getrusage(syscall.RUSAGE_SELF, &ru)
-	return time.Duration(ru.Utime.Nano() + ru.Stime.Nano())
+// threadCPU reads the CPU-time clock of one OS thread (Linux per-thread CPU
+// clock id: ^tid<<3 | CPUCLOCK_SCHED|CPUCLOCK_PERTHREAD). The parsing goroutine
+// is locked to its thread, so this is the CPU time spent parsing, without the
+// garbage collector's background workers and without other threads.
+func threadCPU(tid int) time.Duration {
+	var ts syscall.Timespec
+	clock := uintptr((^tid << 3) | 6)
+	if _, _, e := syscall.Syscall(syscall.SYS_CLOCK_GETTIME, clock, uintptr(unsafe.Pointer(&ts)), 0); e != 0 {
+		return 0
+	}
+	return time.Duration(ts.Nano())
 }
 
 // ReadBatch reads a length-prefixed batch file.
@@ -210,8 +219,20 @@ func childParse(args []string) int {
 		b, _ := json.Marshal(r)
 		out.Write(append(b, '\n'))
 	}
+	runtime.LockOSThread()
+	tid := syscall.Gettid()
+	cpuNow := func() time.Duration { return threadCPU(tid) }
+	if cpuNow() == 0 && func() bool {
+		for i, x := 0, 0; i < 5e7; i++ {
+			x += i
+		}
+		return cpuNow() == 0
+	}() {
+		fmt.Fprintln(os.Stderr, "per-thread CPU clock unavailable")
+		return 2
+	}
 	var cur atomic.Int64    // index of the input being parsed
-	var curCPU atomic.Int64 // process CPU time when it started
+	var curCPU atomic.Int64 // parse thread's CPU time when it started
 	cur.Store(-1)
 	go func() {
 		sample := []metrics.Sample{{Name: "/memory/classes/total:bytes"}}
